@@ -35,3 +35,64 @@ fn c20_resume_dispatches_registered_tokens_only() {
         kani::cover!(t == reg, "C20.cover_registered_token");
     }
 }
+
+// ---------------------------------------------------------------------------------------------------------------
+// The loop's round: `wait_event` runs the scheduler for (part of) the slice and then polls the selector. Promptness
+// of a readiness wake-up needs the poll to happen in EVERY round, also when the scheduler used up the whole slice
+// (another coroutine stayed runnable): otherwise a parked waiter is only resumed by its time-out.
+static mut POLLS: usize = 0x7821;
+static mut SCHED_LEFT_NS: u64 = 0x7823;
+static mut SCHED_FAILS: bool = false;
+static mut CALLER_IS_COROUTINE: bool = false;
+#[repr(align(64))]
+struct Blob([u8; 4096]);
+static mut BLOB: Blob = Blob([0x5A; 4096]);
+struct MCUR<'c, Param, Yield, Return>(PhantomData<&'c (Param, Yield, Return)>);
+impl<'c, Param, Yield, Return> MCUR<'c, Param, Yield, Return> {
+    fn current<'current>() -> Option<&'current crate::coroutine::Coroutine<'c, Param, Yield, Return>> {
+        unsafe { if CALLER_IS_COROUTINE { Some(&*(&raw const BLOB).cast::<crate::coroutine::Coroutine<'c, Param, Yield, Return>>()) } else { None } }
+    }
+}
+struct MPL<'p>(PhantomData<&'p ()>);
+impl<'p> MPL<'p> {
+    fn try_timed_schedule_task(_p: &mut crate::co_pool::CoroutinePool<'p>, _dur: Duration) -> std::io::Result<u64> {
+        unsafe { Ok(SCHED_LEFT_NS) } // (a failing scheduler round is not explored here: io::Error's recursive drop glue on the `?` path costs CBMC more than 15 minutes)
+    }
+    fn try_schedule_task(_p: &mut crate::co_pool::CoroutinePool<'p>) -> std::io::Result<()> {
+        Ok(())
+    }
+}
+struct MEL<'e>(PhantomData<&'e ()>);
+impl<'e> MEL<'e> {
+    fn wait_just(_this: &EventLoop<'e>, timeout: Option<Duration>) -> std::io::Result<()> {
+        unsafe { POLLS += 1; } let _ = timeout;
+        Ok(())
+    }
+}
+
+#[kani::proof]
+#[kani::unwind(4)]
+#[kani::stub(crate::coroutine::Coroutine::current, MCUR::current)]
+#[kani::stub(crate::co_pool::CoroutinePool::try_timed_schedule_task, MPL::try_timed_schedule_task)]
+#[kani::stub(crate::co_pool::CoroutinePool::try_schedule_task, MPL::try_schedule_task)]
+#[kani::stub(crate::net::event_loop::EventLoop::wait_just, MEL::wait_just)]
+fn c20_every_round_polls_the_selector() {
+    let mut lp: std::mem::MaybeUninit<EventLoop<'static>> = std::mem::MaybeUninit::uninit();
+    let lp_ref: &mut EventLoop<'static> = unsafe { &mut *lp.as_mut_ptr() };
+    let has_timeout: bool = kani::any();
+    let ns: u64 = kani::any();
+    let left: u64 = kani::any();
+    kani::assume(left <= ns); // the scheduler reports how much of the slice is left
+    unsafe { POLLS = 0; SCHED_LEFT_NS = left; SCHED_FAILS = false; CALLER_IS_COROUTINE = kani::any(); }
+    let r = lp_ref.wait_event(if has_timeout { Some(Duration::from_nanos(ns)) } else { None });
+    let ok = r.is_ok();
+    std::mem::forget(r);
+    unsafe {
+        if ok {
+            kani::assert(POLLS == 1, "C20.every_round_polls_the_selector_once");
+        } else {
+            kani::assert(SCHED_FAILS, "C20.a_round_fails_only_if_scheduling_fails");
+        }
+        kani::cover!(ok && has_timeout && left == 0 && !CALLER_IS_COROUTINE, "C20.cover_poll_after_a_used_up_slice");
+    }
+}
